@@ -11,16 +11,16 @@ CHECKS = {
     "C01": (A, "4.1", "offline event-log monitor (conservation of tun frames) over whole-program simulated runs under ASan/UBSan",
             "held on every executed scenario: real client(s) and server on the simulated OS through a seeded fault relay; each tun_write compared byte-for-byte with earlier tun_reads",
             "trusts the shim's fidelity to Linux, gcc sanitizers; zlib's checksum hides most mis-reassembly (C02 catches the resulting loss)"),
-    "C02": (A, "4.2", "offline sequence monitor in virtual time (exactly-once/in-order on a clean path, bounded recovery after a fault prefix)",
+    "C02": (A, "4.2", "offline sequence monitor in virtual time (exactly-once/in-order on a clean path incl. packets sized for exactly 2/15/16 fragments with the programs' own zlib, bounded recovery after a fault prefix); a third of the runs with scheduling latency (one select() reports several inputs)",
             "held on every executed scenario; liveness restated as bounded progress B = 30 virtual s; fault prefixes are seeded samples of up to 40 s",
             "B chosen from the code's timer chains; 'accepted' = frame whose transmission the reader started (the client's documented congestion drop is not acceptance)"),
     "C03": (A, "4.3", "online shadow-authentication monitor (independent MD5) over adversarial multi-session histories against the real iodined; privileged effects identified at the process boundary and by unique packet ids, plus users[] snapshot diffs at every select()",
             "held on every executed history: login accepts, I/S/O/N acknowledgements, raw-login replies, server tun writes, client-to-client forwards, settings changes and authenticated flags all preceded by a correct response to the slot's current challenge",
             "histories are seeded samples; the oracle only demands 'login before effect' and never predicts replies; fragment-size probes and ping/data acknowledgements are not treated as privileged"),
-    "C04": (A, "4.4", "differential monitor (same seeded time-scripted scenario with and without spoofed requests; victim-visible observables compared) + offline history monitors for routing by tunnel address, slot takeover and expiry over adversarial multi-session histories",
+    "C04": (A, "4.4", "differential monitor (same seeded time-scripted scenario with and without spoofed requests; victim-visible observables compared) + offline history monitors for routing by tunnel address, slot takeover and expiry over adversarial multi-session histories (incl. histories in which the server's wall clock is set back)",
             "held on every executed pair and history: every request naming the victim's userid from a foreign address refused and without effect on the packets delivered to the victim, its session row, its transfer state and the server's tun writes; packets for address A delivered only to the logged-in holder of A; no VACK for a slot with an accepted message < 60 s earlier; no service after > 60 s of silence",
             "observables are compared at a granularity insensitive to when a datagram wakes the server inside its 20 ms send-real-soon window; behaviour at exactly 60 s is not asserted; a correct raw login from another address legitimately rebinds"),
-    "C05": (A, "4.5", "ASan/UBSan inside the real iodined + structural invariants of the users[] table evaluated by the shim at every select() + watchdog + health probe under structure-aware hostile datagram generators, never-ending fragment streams, exhausted slot pool and failing tun reads, plus ordinary multi-session/tunnel traffic; a share of the scenarios is repeated with a non-sanitized build under valgrind memcheck (uninitialised values)",
+    "C05": (A, "4.5", "ASan/UBSan inside the real iodined + structural invariants of the users[] table evaluated by the shim at every select() + watchdog + health probe under structure-aware hostile datagram generators, never-ending fragment streams, exhausted slot pool and failing tun reads, plus ordinary multi-session/tunnel traffic and heap-watch runs (allocated bytes at every select()); a share of the scenarios is repeated with a non-sanitized build under valgrind memcheck (uninitialised values); thorough tier: the forwarded-query table under the same sanitizers through one history of 2^32+2^16 queries",
             "no sanitizer report, exit or stall on any executed hostile input sequence (8 generator classes x 11 pre-attack session states x server options), and a session established before the attack still moved a frame each way afterwards",
             "a clean sanitizer run is not memory safety (intra-object / non-adjacent overflows invisible); only executed paths are judged; GCC-defined signed '<<' (shift-base) is not counted as UB"),
     "C08": (B, "4.8", "real client name builders -> strict name checker -> real server dispatcher in one process (statics reached by #include), over the full (L, domain length, codec) grid",
@@ -35,7 +35,7 @@ CHECKS = {
     "C07": (B, "4.7", "sanitizer-instrumented unit driver with round-trip / alphabet / capacity oracle over enumerated inputs",
             "held on every executed (codec, input, capacity) case: exhaustive for inputs of 0..2 bytes x all capacities, adjacent byte pairs in every block position, every length up to 4096 with capacity sweeps; ASan guards exact-size buffers",
             "alphabet membership from doc/proto_00000502.txt; symbol order within an alphabet not asserted"),
-    "C10": (A, "4.10", "online strict RFC 1035 parser + echo/aux oracle on every datagram emitted at the process boundary",
+    "C10": (A, "4.10", "online strict RFC 1035 parser + echo/aux oracle on every datagram emitted at the process boundary, incl. a reply-size sweep (one fragment-size probe per size 2..1400, thorough 2..2400, for every record type x downstream codec)",
             "held on every DNS-mode datagram the real programs emitted in the executed scenarios (model-client sessions over all query types/codecs/fragment sizes and real-client tunnel runs)",
             "strict parser written from RFC 1035 (simnet/dnsstrict.py); queries with '.'/NUL inside labels or malformed queries are outside the echo rule"),
     "C11": (A, "4.11", "end-to-end monitor: real client through a transforming relay (member of the property's product family) to the real server; handshake completion within a virtual-time bound, then C02's exactly-once/in-order sequence monitor on packets sent through the same relay",
@@ -44,28 +44,28 @@ CHECKS = {
     "C12": (B, "4.12", "differential monitor over receive-buffer residues: (B) same datagram + 6 different stale-buffer contents through the tree's dns_decode(); (A) whole-program runs of the real server and client under 6 residue policies of the simulated recv(), complete output traces compared",
             "held on every generated datagram (valid queries/answers of all 7 record types cut at every byte, pointers and label lengths reaching the datagram end, inflated RDLENGTH / TXT lengths) x 6 residues",
             "sanitizers cannot see this class (the 64 KB buffer is addressable); a read past the end that cannot change any output is not reported"),
-    "C13": (A, "4.13", "system() boundary monitor: every command the real client passes to system() is matched against a strict grammar while a model server feeds hostile login replies; plus the tree's tun.c compiled for LINUX/FREEBSD/OPENBSD/NETBSD with system() replaced by a recorder and fed the same hostile corpus",
+    "C13": (A, "4.13", "system() boundary monitor: every command the real client passes to system() is matched against a strict grammar while a model server feeds hostile login replies; plus the tree's tun.c compiled for LINUX/FREEBSD/OPENBSD/NETBSD with system() replaced by a recorder and fed the same hostile corpus; hosts with and without ifconfig (access() simulated); commands of an unforeseen shape are judged word by word (tool words, interface names, strict dotted quads, numbers in range)",
             "held on every executed login reply: four fields replaced individually and jointly by metacharacter strings, inet_addr-accepted non-dotted-quad forms, out-of-range numbers, fillers, random bytes; 7 query types x 5 downstream encodings",
             "Linux ifconfig command grammar of tun.c; the interface name is local, not peer-derived"),
-    "C14": (A, "4.14", "boundary multiset monitor (answers consume received queries; replies of the local DNS server handed on under -b go to somebody who asked with that id) + quiescent-point held-query bound (two in lazy mode; none for longer than 0.5 virtual s in immediate mode; queries held from a lazy phase go out)",
+    "C14": (A, "4.14", "boundary multiset monitor (answers consume received queries; replies of the local DNS server handed on under -b go to somebody who asked with that id) + quiescent-point held-query bound (two in lazy mode; none for longer than 0.5 virtual s in immediate mode; queries held from a lazy phase go out); datagrams with the QR bit set are owed nothing; a relayed reply must not be a second answer to a query iodined answered itself; a third of the runs with scheduling latency",
             "held on every executed history: each server answer matched one-to-one with a received query datagram; at every select() at most two distinct never-answered ping/data queries per session",
             "histories are seeded samples; session attribution uses the userid encoded in the query"),
     "C15": (A, "4.15", "independent downstream decoder over every data answer (size bound, fragment numbering, last flag vs offered frames)",
             "held on every executed history for F in {2..65535}; numbering/last-flag judged for packets of <=16 fragments, cache replays excluded",
             "trusts simnet/proto.py decoders (cross-validated by interoperating with the real server) and Python zlib"),
-    "C16": (A, "4.16", "differential monitor (same time-scripted session with and without re-delivered queries) + per-select() invariant on the users[] snapshot + answer-cache same-payload rule, also under injected sendto() failures",
+    "C16": (A, "4.16", "differential monitor (same time-scripted session with and without re-delivered queries) + per-select() invariant on the users[] snapshot + answer-cache same-payload rule, also under injected sendto() failures, on slow paths with several queries under way, and with relays repeating a query up to 9 times; if the instrumented server dies of a sanitizer report in more than a fifth of the pairs they are judged on a build without sanitizers",
             "held on every executed pair: server tun writes, packets delivered to the client and final transfer counters identical with and without re-deliveries; transfer counters unchanged across every iteration that handled only a re-delivered copy; identical repeats of the three most recently answered queries got the original payload",
             "re-deliveries are drawn from inside the documented windows; a case-changed copy of a query that is still held is a new query to the server by design and is judged by the invariant oracle only (DESIGN 9)"),
     "C17": (B, "4.17", "exhaustive small-alphabet enumeration against a label-splitting reference matcher, ASan on exact-size strings; plus a dispatch monitor on the real server (inside names answered by the tunnel server and never forwarded, outside names never answered, forwarded with -b)",
             "exhaustive for validation strings of length 0..7 and query names of length 0..8 over {a,A,b,-,.,*,0} against 16 domains; seeded random long names/domains; boundary lengths",
             "reference written from the property text; wildcard-matched label must be non-empty"),
-    "C18": (B, "4.18", "enumeration of (netmask, server position) with pool invariants, a reference lookup under a wrapped clock (also stepped backwards), and a session history (slots handed out, logged in, expired, recycled) through find_available_user(); plus a boundary monitor on the real iodined: the addresses its login replies tell the clients vs its table vs where packets for those addresses go",
+    "C18": (B, "4.18", "enumeration of (netmask, server position) with pool invariants, a reference lookup under a wrapped clock (also stepped backwards), and a session history (slots handed out, logged in, expired, recycled) through find_available_user(); plus a boundary monitor on the real iodined: the addresses its login replies tell the clients vs its table vs where packets for those addresses go, again after more than a minute of DNS pings / upstream data / raw data only / raw pings / silence, and at the 60 s boundary after the server has been idle (users[] snapshot)",
             "exhaustive over all host positions for /20../30 (quick) and /16../30 (thorough), boundary + sampled positions for /8../15; lookup compared with the reference 'live logged-in owner'",
             "behaviour at exactly 60 s of silence is not asserted"),
-    "C19": (B, "4.19", "differential test against an independent MD5 (Python hashlib) incl. bit-flip sensitivity; plus wire-level monitors of the real client (password from -P / environment / standard input; login and every raw-login datagram, which raw-login reply it accepts) against a model server and of the real server (sessions succeeding each other on a slot, repeated raw logins)",
+    "C19": (B, "4.19", "differential test against an independent MD5 (Python hashlib) incl. bit-flip sensitivity; plus wire-level monitors of the real client (password from -P / environment / standard input; login and every raw-login datagram, which raw-login reply it accepts) against a model server and of the real server (sessions succeeding each other on a slot, repeated raw logins, logins arriving 6-50 s after the version handshake with bystanders in between)",
             "held on all generated (password, challenge) cases: every length 0..40 x boundary challenges, random cases, single-bit sensitivity, insensitivity to bytes beyond 32 and to output-buffer contents",
             "hashlib MD5 is the oracle; wire-level use of challenge+1/-1 is observed in Engine A runs"),
-    "C20": (A, "4.20", "socket-boundary monitor on iodined -b (forward rule, reply-routing rule against a reference window of the 16 most recent forwarded queries) + exhaustive put/get enumeration of the table in a unit driver that #includes fw_query.c",
+    "C20": (A, "4.20", "socket-boundary monitor on iodined -b (forward rule, reply-routing rule against a reference window of the 16 most recent forwarded queries) + exhaustive put/get enumeration of the table in a unit driver that #includes fw_query.c, which also runs one history of 2^28 (thorough: 2^32+2^16) forwarded queries; outages of the local DNS server (connect()/ICMP semantics of the simulated OS) with bursts waiting at a busy iodined",
             "held on every executed history (requesters at many address:port pairs incl. IPv6, ids from domains of 3-20 values incl. 0, replies in any order, duplicated, unsolicited, header-less) and on every table history up to the stated depth at every ring phase",
             "forwarded copies are compared by strict parse (id, labels, type), relayed replies byte-for-byte; a header-less reply may reach nobody or the asker of id 0"),
 }
